@@ -113,7 +113,7 @@ pub fn run(ctx: &Ctx, replay: Option<&J>) -> CheckResult {
     crate::crc::self_check();
     let rule = "for every payload length L=0..=1023: frames with random payload and random reserved bits, and near-misses derived \
         from them (wrong preamble, every truncation length 0..L+5, each checksum bit flipped, checksum byte changed/swapped, \
-        length field +-1/random with and without trailing bytes, payload bit flips, trailing bytes, other reserved bits; all 64 reserved-bit patterns for every length = all 65536 header patterns, alone and followed by >1029 bytes; frames at the start of slices of 65535..131077 bytes; frames whose checksum is 0x000000, 0xFFFFFF, 0xD30000 and ten more special values, with their near-misses), plus random \
+        length field +-1/random with and without trailing bytes, payload bit flips, trailing bytes, other reserved bits; all 64 reserved-bit patterns for every length = all 65536 header patterns, alone and followed by >1029 bytes, and each again with a payload whose first 1..8 bytes repeat the preamble or a header byte (with truncations); frames at the start of slices of 65535..131077 bytes; frames whose checksum is 0x000000, 0xFFFFFF, 0xD30000 and ten more special values, with their near-misses), plus random \
         and D3-prefixed random slices; oracle = own CRC-24Q acceptance predicate compared with MessageFrame::new incl. \
         reported lengths/payload/checksum and error kind; wrong-checksum candidates between valid frames are also looked at through next_msg_frame-based iteration (next, nth, skip, count) which must deliver exactly the accepted frames. non-trivial = accepted frame or near-miss derived from one; distinct = hash of the slice bytes"
         .to_string();
@@ -201,6 +201,25 @@ pub fn run(ctx: &Ctx, replay: Option<&J>) -> CheckResult {
                             g[l + 6] = 0xD3;
                         }
                         go(&mut ev, &mut vs, &g, "all-header-patterns+long-trailing", true);
+                        // the same header pattern with a payload that begins like a header: 1..=8 leading bytes equal to the
+                        // preamble (or to the header's own second / third byte), and two truncations of that frame
+                        if l >= 1 {
+                            let mut q = p.clone();
+                            let k = (1 + (r as usize % 8)).min(l);
+                            let h = frame_with_reserved(&p, r);
+                            let lead = match (r / 8) % 3 {
+                                0 => 0xD3,
+                                1 => h[1],
+                                _ => h[2],
+                            };
+                            for b in q.iter_mut().take(k) {
+                                *b = lead;
+                            }
+                            let g2 = frame_with_reserved(&q, r);
+                            go(&mut ev, &mut vs, &g2, "header-like-payload", true);
+                            go(&mut ev, &mut vs, &g2[..g2.len() - 1], "header-like-payload-truncated", true);
+                            go(&mut ev, &mut vs, &g2[..(4 + k).min(g2.len() - 1)], "header-like-payload-truncated", true);
+                        }
                     }
                 }
                 // reserved bits changed *without* fixing the checksum: covered by C04, here just the predicate
